@@ -100,7 +100,16 @@ FmtKindsOf(f) ==
     << K("fmt-" \o f \o "-max", FmtS(f), JBig(mx), NoDefs), K("fmt-" \o f \o "-min", FmtS(f), JBig(mn), NoDefs) >>
     \o (IF ty = "u64" THEN << >> ELSE << K("fmt-" \o f \o "-over", FmtS(f), JBig([a |-> mx.a, o |-> mx.o + 1]), NoDefs) >>)
     \o (IF ty = "i64" THEN << >> ELSE << K("fmt-" \o f \o "-under", FmtS(f), JBig([a |-> mn.a, o |-> mn.o - 1]), NoDefs) >>)
-AllKinds == Kinds \o Flat([i \in DOMAIN FmtNames |-> FmtKindsOf(FmtNames[i])])
+(* maps whose keys are constrained (a dedicated key type is generated) with a non-empty default *)
+KeyPat6 == [type |-> "string", pattern |-> "^a+$"]
+MapKinds == <<
+  K("keymap-pattern-dflt", [type |-> "object", propertyNames |-> KeyPat6, additionalProperties |-> SInt], JObj2("a", JInt(1), "aa", JInt(2)), NoDefs),
+  K("keymap-enum-dflt", [type |-> "object", propertyNames |-> EnumS(<<JS(<<"r","e","d">>), JS(<<"g">>)>>), additionalProperties |-> SInt],
+    JObj1("red", JInt(1)), NoDefs),
+  K("keymap-len-dflt", [type |-> "object", propertyNames |-> [type |-> "string", maxLength |-> 3], additionalProperties |-> SStr],
+    JObj1("k", JS(<<"v">>)), NoDefs),
+  K("keymap-pattern-empty", [type |-> "object", propertyNames |-> KeyPat6, additionalProperties |-> SInt], JObj(<< >>, << >>), NoDefs) >>
+AllKinds == Kinds \o MapKinds \o Flat([i \in DOMAIN FmtNames |-> FmtKindsOf(FmtNames[i])])
 
 Init == \E k \in DOMAIN AllKinds, p \in Positions : c = [k |-> AllKinds[k], pos |-> p]
 Next == UNCHANGED c
